@@ -318,8 +318,17 @@ func main() {
 		}
 		r.Watch(127, append([]byte{byte(len(c.Old) >> 24), byte(len(c.Old) >> 16), byte(len(c.Old) >> 8), byte(len(c.Old))}, append(append([]byte(nil), c.Old...), c.New...)...))
 		defer r.WatchDone(127)
-		vs, _ := checkPair(c.Old, c.New)
-		return vs
+		// Diff is a pure function, so one evaluation decides. Should an
+		// implementation keep state between calls (a pooled buffer), whether a
+		// call meets that state depends on the runtime (garbage collections,
+		// processor migration): the oracle is a function of one call's result, so
+		// a violation on any repetition is genuine; the case is repeated.
+		for try := 0; try < 300; try++ {
+			if vs, _ := checkPair(c.Old, c.New); len(vs) > 0 {
+				return vs
+			}
+		}
+		return nil
 	}
 	r.Stuck = func(in []byte) kit.V {
 		if len(in) < 4 {
